@@ -96,6 +96,45 @@ def h_canon(ctx, width, keys, vk='u8'):
     ctx.observe('root', cell.bits.to01())
 
 
+def h_canon_steps(ctx, width, keys, steps, via_map=False):
+    """the cell is the canonical tree of the map AS IT STANDS: one map object (optionally built over a mapping its owner keeps,
+    map_=...) serialised, changed through set_int_key / the mapping itself, serialised again - compared with the reference
+    encoding of the current pairs after every step"""
+    cur, n = {}, [0]
+
+    def fresh_val():
+        n[0] += 1
+        return ctx.uint(f'v{n[0]}', 8)
+    owner = {}
+    hm = HashMap(width, map_=owner).with_uint_values(8) if via_map else HashMap(width).with_uint_values(8)
+    for k in keys:
+        cur[k] = fresh_val()
+        if via_map:
+            owner[k] = cur[k]
+        else:
+            hm.set_int_key(k, cur[k])
+
+    def check(tag):
+        cell = hm.serialize()
+        if not cur:
+            ctx.require(cell is None, f'canonical after changes: empty map is no cell ({tag})')
+            return
+        spec = warm(D.encode(D.build([(keybits(k, width), cur[k]) for k in sorted(cur)]), width, lambda v: (enc_uint(v, 8), [])))
+        ctx.require(cell is not None and cell.hash == cell_hash(spec, 3), f'canonical after changes: hash equals the reference hash of the current map ({tag})')
+    check('first')
+    for st in steps:
+        if st[0] == 'int':
+            cur[st[1]] = fresh_val()
+            hm.set_int_key(st[1], cur[st[1]])
+        elif st[0] == 'owner':
+            cur[st[1]] = fresh_val()
+            (owner if via_map else hm.map)[st[1]] = cur[st[1]]
+        elif st[0] == 'del':
+            del hm.map[st[1]]
+            del cur[st[1]]
+        check('after ' + st[0])
+
+
 def h_canon_symkeys(ctx, width, nk, win=None, pos=0):
     """canonical structure with symbolic keys: the specification forks on the same key relations"""
     keys = []
@@ -184,7 +223,7 @@ def _edge_sizes(edge, m, path, out):
         _edge_sizes(edge.node.right, m2, path + '1', out)
 
 
-def h_parse_valid(ctx, width, keys, assign=0, aug=False, prune=(), via='parse', twin=None):
+def h_parse_valid(ctx, width, keys, assign=0, aug=False, prune=(), via='parse', twin=None, xrefs=False):
     root, tags = _tree(ctx, width, keys, aug)
     m_of = {}
     _edge_sizes(root, width, '', m_of)
@@ -199,8 +238,27 @@ def h_parse_valid(ctx, width, keys, assign=0, aug=False, prune=(), via='parse', 
     def extra_enc(node):
         tag, low = tags[id(_orig(node))]
         return cat_bits(enc_uint(tag, 8), enc_uint(low, 8))
-    spec = warm(D.encode(pr, width, lambda v: (enc_uint(v, 8), []), lambda path, label, m: kinds[path],
-                         extra_enc if aug else None))
+    xcells = {}
+    if aug and xrefs:
+        # augmentation values that own a reference (like a CurrencyCollection with extra currencies): in a fork the children
+        # are references 0 and 1 and the extra's reference comes third; in a leaf it precedes the value's references
+        def enc(edge, m, path):
+            if isinstance(edge, D.Pruned):
+                from specs.cellspec import prune as _pr
+                return _pr(enc(edge.edge, m, path))
+            bits = D.enc_label(edge.label, m, kinds[path])
+            node = edge.node
+            tag, low = tags[id(_orig(node))]
+            xc = xcells.setdefault(tag, SC(ORD, ctx.bitstr(f'xr{tag}', 4), []))
+            xb = cat_bits(enc_uint(tag, 8), enc_uint(low, 8))
+            m2 = m - len(edge.label)
+            if isinstance(node, D.Leaf):
+                return SC(ORD, cat_bits(bits, xb, enc_uint(node.value, 8)), [xc])
+            return SC(ORD, cat_bits(bits, xb), [enc(node.left, m2 - 1, path + '0'), enc(node.right, m2 - 1, path + '1'), xc])
+        spec = warm(enc(pr, width, ''))
+    else:
+        spec = warm(D.encode(pr, width, lambda v: (enc_uint(v, 8), []), lambda path, label, m: kinds[path],
+                             extra_enc if aug else None))
     cell = to_real(spec)
     expect = [(k, leaf.value) for k, leaf, pruned in D.leaves(pr) if not pruned]
     if twin == 'drop':
@@ -219,6 +277,12 @@ def h_parse_valid(ctx, width, keys, assign=0, aug=False, prune=(), via='parse', 
         return
     xd = lambda s: s.load_uint(8)
     yd = lambda s: s.load_uint(16)
+    got_xrefs = []
+    if xrefs:
+        def yd(s):
+            v = s.load_uint(16)
+            got_xrefs.append((v, s.load_ref()))
+            return v
     if via == 'parse':
         res, extras = P.parse_hashmap_aug(cell.begin_parse(), width, xd, yd)
     else:
@@ -242,6 +306,10 @@ def h_parse_valid(ctx, width, keys, assign=0, aug=False, prune=(), via='parse', 
         seen.add(tag)
         if tag in want:
             ctx.require((x & 0xff) == want[tag], 'augmented parser: augmentation value')
+    for v, rc in got_xrefs:
+        tag = v >> 8
+        tag = tag if isinstance(tag, int) else int(tag)
+        ctx.require(tag in xcells and rc.bits.to01() == xcells[tag].bits and len(rc.refs) == 0, 'augmented parser: the reference owned by an augmentation value is its own')
 
 
 # ------------------------------------------------------------------------------- instances
@@ -273,6 +341,10 @@ def instances(tier, seed):
                    [top >> 1, top >> 2, top >> 3]) + \
                 (([int(('10' * width)[:width], 2), int(('01' * width)[:width], 2)],) if width <= 267 else ()):
             yield 'h_canon', dict(width=width, keys=ks)
+    for via_map in (False, True):
+        for keys, steps in (([5, 200], [['int', 77]]), ([5, 200], [['owner', 77]]), ([1, 4, 6], [['del', 4]]), ([3], [['owner', 3], ['del', 3], ['int', 9]]),
+                            ([0, 255], [['int', 0], ['owner', 128], ['del', 255]])):
+            yield 'h_canon_steps', dict(width=8, keys=keys, steps=steps, via_map=via_map)
     for vk in ('i16', 'coins', 'addr'):
         yield 'h_canon', dict(width=5, keys=[31, 16] if vk == 'coins' else [31, 0, 16, 17, 3], vk=vk)
     for width in ((2, 3, 4) if tier == 'quick' else (1, 2, 3, 4, 5, 6)):
@@ -298,6 +370,8 @@ def instances(tier, seed):
         for i, (a, p) in enumerate(combos):
             for aug in (False, True):
                 yield 'h_parse_valid', dict(width=width, keys=keys, assign=a, aug=aug, prune=list(p), via=('parse', 'wrapper')[i % 2])
+            if i % 3 == 0 or tier == 'thorough':
+                yield 'h_parse_valid', dict(width=width, keys=keys, assign=a, aug=True, prune=list(p), via=('parse', 'wrapper')[(i // 3) % 2], xrefs=True)
     # the bulk family last, so that a wall-clock cap never cuts the scenarios above
     for ks in w4:
         yield 'h_canon', dict(width=4, keys=list(ks))
